@@ -11,8 +11,8 @@
 (*                                                                         *)
 (* Trace file (ndjson): [id, g (Planner graph record fields), jobs, stop,  *)
 (* events]; events: Cached t | Running t k | Skipping t k | Spawn t slot   *)
-(* ts | SpawnFail t | Exit t c | Handler | Success t | Failed t | Return   *)
-(* exit.                                                                   *)
+(* ts | SpawnFail t | Exit t c | Handler | Stop t | Cont t | Success t |   *)
+(* Failed t | Return exit.                                                 *)
 (***************************************************************************)
 EXTENDS Executor, Json, IOUtils, TLCExt
 
@@ -55,13 +55,18 @@ TSpawnFail == /\ Has /\ Ev.e = "SpawnFail" /\ ForkFail /\ TaskOf(cur) = Ev.t
 TExit == /\ Has /\ Ev.e = "Exit" /\ \E p \in Ops : TaskOf(p) = Ev.t /\ ChildExit(p) /\ code'[p] = Ev.c
          /\ Consume(1)
 THandler == /\ Has /\ Ev.e = "Handler" /\ Handler /\ Consume(1)
+(* job control from outside: the task's process is stopped / continued (JobControl = TRUE in the trace configuration) *)
+TStopCont == /\ Has /\ Ev.e \in {"Stop", "Cont"}
+             /\ \E p \in Ops : /\ TaskOf(p) = Ev.t /\ StopOrCont(p)
+                                /\ proc'[p] = (IF Ev.e = "Stop" THEN "stopped" ELSE "resumed")
+             /\ Consume(1)
 TFinishOk == /\ Has /\ Ev.e = "Success" /\ Finish /\ TaskOf(cur) = Ev.t /\ ost'[cur] = "SUCCEEDED" /\ Consume(1)
 TFinishFail == /\ Has /\ Ev.e = "Failed" /\ Finish /\ TaskOf(cur) = Ev.t /\ ost'[cur] = "FAILED" /\ Consume(1)
 TReport == /\ Has /\ Ev.e = "Return" /\ Report
            /\ LET e == IF \A o \in RangeS(completed) : ost[o] = "SUCCEEDED" THEN 0 ELSE 1 IN Ev.exit = e
            /\ Consume(1)
 (* stop-early tail (kills) is not validated step by step: the trace ends at the first Kill *)
-TNext == \/ TStart \/ TLaunchRun \/ TLaunchSkip \/ TLaunchNone \/ TSpawn \/ TSpawnFail \/ TExit \/ THandler
+TNext == \/ TStart \/ TLaunchRun \/ TLaunchSkip \/ TLaunchNone \/ TSpawn \/ TSpawnFail \/ TExit \/ THandler \/ TStopCont
          \/ TFinishOk \/ TFinishFail \/ TReport
          \/ Silent(LoopTest) \/ Silent(SyncStart) \/ Silent(Register) \/ Silent(WaitTry) \/ Silent(Unblock) \/ Silent(AfterLoop) \/ Silent(KillExits)
 TSpec == TInit /\ [][TNext /\ UNCHANGED tid]_tvars
